@@ -356,7 +356,7 @@ end
 
 mutual
 /-- what the MODEL covers (a superset of `wf`, the theorems' fragment): `wf` with comments allowed in
-    the inner gaps of `with` / `assert`. The driver answers `roundtrip`
+    the inner gaps of `with` / `assert` / select / unary / `if` / has-attr and in front of the `:` of a lambda. The driver answers `roundtrip`
     requests on this set, so the transliterations of `WithStatement` / `Assertion` are compared with
     the implementation also where no theorem speaks about them yet. -/
 def Cst.modelled : Cst → Bool
